@@ -226,6 +226,25 @@ def precision(bits):
         config.precision = 64 if old == np.float64 else 32
 
 
+FFT_BACKENDS = ['scipy', 'scipy', 'scipy', 'numpy']
+fft_backends = st.sampled_from(FFT_BACKENDS)
+
+
+@contextlib.contextmanager
+def fft_backend(name):
+    """the FFT module behind prysm's backend shim (`prysm.mathops.fft._srcmodule`, the documented way to plug in mkl_fft / cupy / torch):
+    'scipy' (default) or 'numpy' - numpy.fft has the same transforms but no `next_fast_len`, so helpers fall back to their own sizing"""
+    from prysm import mathops
+    old = mathops.fft._srcmodule
+    try:
+        if name == 'numpy':
+            import numpy.fft as npfft
+            mathops.fft._srcmodule = npfft
+        yield
+    finally:
+        mathops.fft._srcmodule = old
+
+
 def inner(a, b):
     return np.sum(np.conj(a) * b)
 
